@@ -21,6 +21,7 @@ import FwdVerif.Driver.C11
 import FwdVerif.Driver.C04
 import FwdVerif.Driver.C05
 import FwdVerif.Driver.C06
+import FwdVerif.Driver.ReqConn
 
 open FwdVerif
 
@@ -46,6 +47,7 @@ def dispatch (line : String) : String :=
   | "C04" :: rest => C04.handle rest
   | "C05" :: rest => C05.handle rest
   | "C06" :: rest => C06.handle rest
+  | "C02" :: rest => ReqConn.handle rest
   | ["ping"] => "pong"
   | _ => "bad-op"
 
